@@ -386,6 +386,20 @@ def gen_spec(rng, size):
         sp["contexts"].append(ctx)
     if rng.random() < 0.8:
         sp["defaults"] = {"group": rng.choice(sp["groups"])["name"], "system": rng.choice(sp["systems"])["name"]}
+    # a system whose `new : old` rule must be INVERTED: the new unit contains the old root unit with exponent +-2 and
+    # other root units (flux = 7 g m**2 / s**3 ; rule `flux : m`  =>  m = flux**(1/2) g**(-1/2) s**(3/2))
+    if len(sp["base"]) >= 2:
+        bs = rng.sample([b["name"] for b in sp["base"]], min(len(sp["base"]), rng.choice([2, 2, 3])))
+        e = rng.choice([2, -2])
+        others = [(b, rng.choice([1, -1, 3, -3])) for b in bs[1:]]
+        mu = {"name": nm.fresh("u", LOWER), "factor": rng.choice(["4", "0.25", "9", "16", "7", "1.5"]), "refs": [(bs[0], e)] + others,
+              "form": rng.randrange(5), "sym": None, "aliases": [], "offset": None, "log": None}
+        rng.shuffle(mu["refs"])
+        sp["units"].append(mu)
+        root[mu["name"]] = (lit_value(mu["factor"]), dict(mu["refs"]))
+        spell[mu["name"]] = mu["name"]
+        sp["systems"].append({"name": nm.fresh("S", LOWER, 2, 3), "using": [rng.choice(sp["groups"])["name"]], "rules": [],
+                              "mrules": [(mu["name"], bs[0], {mu["name"]: F(1, e), **{b: F(-v, e) for b, v in others}})]})
     sp["root"] = root
     sp["spell"] = spell
     sp["pspell"] = {k: v["name"] for k, v in pspell.items()}
@@ -519,6 +533,8 @@ def render_files(sp, v, order=None, inline_aliases=False):
         body.append(f"@system {s['name']} using " + ", ".join(s["using"]))
         for new, old, _b in s["rules"]:
             body.append(ind + (new if old is None else (f"{new} : {old}" if v["id"] != 1 else f"{new}:{old}")))
+        for new, old, _e in s.get("mrules", []):
+            body.append(ind + (f"{new} : {old}" if v["id"] != 1 else f"{new}:{old}"))
         body.append("@end")
     for c in sp["contexts"]:
         hdr = "@context(" + ", ".join(f"{k}={x}" for k, x in c["defaults"].items()) + ") " + c["name"]
@@ -631,13 +647,16 @@ def meaning_of(ureg, sp, sections=None):
     for s in sp["systems"]:
         def sy():
             o = ureg.get_system(s["name"], False)
-            return (tuple(sorted(o.members)), tuple(sorted((k, tuple(sorted((a, fr(b)) for a, b in v.items()))) for k, v in o.base_units.items())))
+            return (tuple(sorted(o.members)), tuple(sorted((k, tuple(sorted((a, fr(F(b))) for a, b in v.items()))) for k, v in o.base_units.items())))
         sysd[s["name"]] = safe(sy)
     m["systems"] = sysd
     m["system-conversion"] = {}
     for s in sp["systems"]:
         for new, _old, b in s["rules"]:
             m["system-conversion"][(s["name"], b)] = safe(lambda: (lambda r: (fr(r[0]), ucd(r[1]._units)))(ureg.get_base_units(b, system=s["name"])))
+        for new, oldu, _e in s.get("mrules", []):
+            m["system-conversion"][(s["name"], oldu)] = safe(lambda: (lambda r: (fr(r[0]), ucd(r[1]._units)))(ureg.get_base_units(oldu, system=s["name"])))
+            m["system-conversion"][(s["name"], new)] = safe(lambda: (lambda r: (fr(r[0]), ucd(r[1]._units)))(ureg.get_base_units(new, system=s["name"])))
     m["defaults"] = (safe(lambda: ureg.default_system), tuple(sorted(ureg._defaults.items())))
     some = sorted(set(sp["spell"].values()))[:6]
     m["default-base-units"] = {n: safe(lambda: (lambda r: (fr(r[0]), ucd(r[1]._units)))(ureg.get_base_units(n))) for n in some}
@@ -950,7 +969,7 @@ def run(ck):
     ck.rule = ("(a) default_en.txt+constants_en.txt: every spelling's root factor/root units/dimensionality/name/symbol, every "
                "converter, prefix, dimension (Fraction registry, exact); Coq line reader and lexer on every definition line; "
                "(b) %d random definition files (units DAG with decimal factors, prefixes, aliases, symbols, offset and log units, "
-               "chains of derived dimensions in random line order (forward references), @alias lines (of names, symbols, earlier aliases; also written inline in a twin file), groups with using, systems with both rule forms, contexts with relations, parameters "
+               "chains of derived dimensions in random line order (forward references), @alias lines (of names, symbols, earlier aliases; also written inline in a twin file), groups with using, systems with both rule forms (also a `new : old` rule that has to be inverted with exponent 2), contexts with relations, parameters "
                "and redefinitions, @defaults, nested @import, comments) x 6 permutations of the unit/prefix/dimension lines x 3 "
                "layouts x loading paths file / list to constructor / load_definitions / define() / cold / warm disk cache, and "
                "non_int_type float/Decimal/Fraction, case_sensitive=False registries and lookups (case variants and prefixed case "
@@ -1335,7 +1354,8 @@ def part_b_file(ck, rng, tmp, fi, sp, quirk, add, fail, stats, thorough, fgroups
                     if m0["groups"].get(g) != mem:
                         fail("written-meaning:group-members", f"group {g}: written {mem}, registry {m0['groups'].get(g)}", dict(rp, group=g))
                 for s in sp["systems"]:
-                    want = tuple(sorted((b, ((new, "1/1"),)) for new, _o, b in s["rules"]))
+                    want = tuple(sorted([(b, ((new, "1/1"),)) for new, _o, b in s["rules"]] +
+                                        [(o, tuple(sorted((u, fr(x)) for u, x in ex.items()))) for _n, o, ex in s.get("mrules", [])]))
                     got = m0["systems"][s["name"]]
                     gm = set()
                     for g in s["using"]:
@@ -1347,6 +1367,14 @@ def part_b_file(ck, rng, tmp, fi, sp, quirk, add, fail, stats, thorough, fgroups
                         gotc = m0["system-conversion"][(s["name"], b)]
                         if gotc != (fr(1 / f_new), ((new, "1/1"),)):
                             fail("written-meaning:system-rule-applied", f"1 {b} in system {s['name']}: expected {1 / f_new} {new}, got {gotc}", dict(rp, system=s["name"]))
+                    for new, oldu, ex in s.get("mrules", []):
+                        gotc = m0["system-conversion"][(s["name"], oldu)]
+                        okc = isinstance(gotc, tuple) and {u: numv(x) for u, x in gotc[1]} == ex
+                        gotn = m0["system-conversion"][(s["name"], new)]
+                        okn = isinstance(gotn, tuple) and {u: numv(x) for u, x in gotn[1]} == {new: F(1)} and numv(gotn[0]) == 1
+                        if not (okc and okn):
+                            fail("written-meaning:system-rule-inverted", f"system {s['name']}, rule `{new} : {oldu}` ({new} = {sp['root'][new]}): "
+                                 f"1 {oldu} should be expressed in {dict(ex)}, got {gotc}; 1 {new} should stay 1 {new}, got {gotn}"[:500], dict(rp, system=s["name"]))
                 if sp["defaults"] and m0["defaults"][0] != sp["defaults"]["system"]:
                     fail("written-meaning:defaults", f"default system {m0['defaults'][0]} != {sp['defaults']['system']}", rp)
                 for c in sp["contexts"]:
@@ -1527,6 +1555,11 @@ def expected_context(sp, c):
                 out.append(fr(r["k"] / 3))
                 out.append(fr(r["k"] / 3))
     return out
+
+
+def numv(txt):
+    """the number behind fr()'s text (floats are read back exactly)"""
+    return F(float(txt[6:])) if txt.startswith("float:") else F(txt)
 
 
 def first_diff(a, b):
